@@ -262,6 +262,67 @@ theorem int_to_string_spec (ik : IKind) (hw : ik.w ≤ 64) (x : BitVec ik.w) :
   · simp only [if_true]
     rw [BitVec.toInt_signExtend_of_le hw]
 
+theorem ne_string_of_ikind {k : Kind} {ik : IKind} (h : k.ikind? = some ik) : k ≠ Kind.string := by
+  intro e; subst e; simp [Kind.ikind?] at h
+
+theorem convertOp_int_string {sk : Kind} {ik : IKind} (hs : sk.ikind? = some ik) :
+    convertOp (.basic sk) (.basic .string) = some (if ik.signed then Op.cvtIntString else Op.cvtUintString) := by
+  unfold convertOp
+  simp only [cat_of_ikind hs]
+  cases ik.signed <;> rfl
+
+/-- **`string(i)`, end to end.**  A non-constant integer operand of any kind (named or not)
+    converted to a string type: gate, `cvtIntString`/`cvtUintString`, the `String` arm of any
+    sound table — the UTF-8 encoding of the code point, U+FFFD for invalid values. -/
+theorem int_to_string_conv_spec (arms : List ClosureIR.Entry) (hT : tableSound arms = true) (tr : Tree)
+    (ts td : Nat) (sk : Kind) (ik : IKind) (hs : sk.ikind? = some ik) (x : BitVec ik.w) :
+    convert arms tr (.var ⟨ts, .basic sk⟩ (.b (.int ik x))) ⟨td, .basic .string⟩
+      = .val (.b (.str (ofBytes (Str.ofInt (I.toInt ik.signed x))))) := by
+  have hk := ne_string_of_ikind hs
+  have h1 : (⟨ts, .basic sk⟩ : Ty) ≠ ⟨td, .basic .string⟩ := by
+    intro h; injection h with _ h2; injection h2 with h3; exact hk h3
+  have h2 : (K.basic sk) ≠ K.basic .string := by intro h; injection h with h3; exact hk h3
+  have hop := convertOp_int_string hs
+  have hgate : convertibleTo (.basic sk) (.basic .string) = true := by
+    unfold convertibleTo; rw [hop]; rfl
+  unfold convert
+  simp only [h1, h2, if_false, hgate, if_true, hop]
+  unfold runtimeBasic
+  have hsc : srcCat (.b (.int ik x)) = some (if ik.signed then Cat.int else Cat.uint) := rfl
+  simp only [hsc]
+  obtain ⟨s, hl, hsnd⟩ := tableSound_lookup hT .string (if ik.signed then Cat.int else Cat.uint)
+  simp only [hl]
+  unfold armSound at hsnd
+  cases hv : s.viaConvert
+  · simp [hv] at hsnd
+  · simp only [hv, if_true, Bool.and_eq_true, beq_iff_eq, Bool.or_eq_true] at hsnd
+    obtain ⟨hret, hacc, hcast⟩ := hsnd
+    have hrc : reflectConvert (if ik.signed then Op.cvtIntString else Op.cvtUintString) (.b (.int ik x)) (.basic .string)
+        = .val (.b (.str (ofBytes (cvtIntStringBits (ext64 ik.signed x))))) := by
+      cases hsg : ik.signed <;> simp [reflectConvert] <;> rw [hsg]
+    simp only [hrc, if_true]
+    unfold runArmConverted
+    have c1 : (s.acc != accOf .string) = false := by simp [hacc]
+    have c2 : (s.ret != Kind.string) = false := by simp [hret]
+    have c3 : (!(s.cast == some Kind.string || (s.cast == none && s.acc.native == Kind.string))) = false := by
+      rcases hcast with h | ⟨h, h'⟩
+      · simp [h]
+      · simp [h, h']
+    simp only [c1, c2, c3, Bool.false_eq_true, if_false]
+    rw [int_to_string_spec ik (ikind_w_le hs)]
+
+
+/-- **`[]rune(string(rs))`, on the model's reflect conversions**: every element comes back, invalid
+    code points (surrogates, above 0x10FFFF, negative) as U+FFFD — for ALL rune slices. -/
+theorem runes_roundtrip (l : List (BitVec 32)) :
+    (match reflectConvert .cvtRunesString (.runes l) (.basic .string) with
+     | .val s => reflectConvert .cvtStringRunes s .runes
+     | r => r) = .val (.runes (l.map fun r => BitVec.ofNat 32 (sanitize r.toInt))) := by
+  simp only [reflectConvert]
+  rw [strBytes_ofBytes _ (encode_lt _), utf8_roundtrip]
+  simp [List.map_map, Function.comp_def]
+
+
 /-! ## 5. typed constants (repair `convertNumericConst`) -/
 
 theorem targetOf_int {k : Kind} {ik : IKind} (h : k.ikind? = some ik) :
